@@ -109,7 +109,11 @@ func genValue(r *rng, d rscp.DataType, depth int, maxLen int, request bool) inte
 		return ms
 	case rscp.Timestamp:
 		var s int64
-		switch r.intn(6) {
+		switch r.intn(8) {
+		case 6: // Go's zero time (year 1) and its neighbours, the values a program holds when a time was never set
+			return []time.Time{{}, time.Time{}.Add(time.Nanosecond), time.Time{}.Add(-time.Nanosecond), time.Time{}.UTC()}[r.intn(4)]
+		case 7: // the calendar boundaries
+			s = []int64{-62135596800, -62135596801, 253402300799, 253402300800, -62167219200, 1700000000, math.MaxInt64, math.MinInt64}[r.intn(8)]
 		case 0:
 			s = 0
 		case 1:
